@@ -37,7 +37,8 @@ def tree_hash():
     global _tree_hash
     if _tree_hash is None:
         files = []
-        for root in (os.path.join(REPO, "src"), os.path.join(HARNESS, "src"), SPEC, os.path.join(VERIF, "lib")):
+        for root in (os.path.join(REPO, "src"), os.path.join(REPO, "tests"), os.path.join(HARNESS, "src"), os.path.join(HARNESS, "tests"),
+                     SPEC, os.path.join(VERIF, "lib")):
             for dp, dn, fn in os.walk(root):
                 if "target" in dp or "__pycache__" in dp or "/states" in dp:
                     continue
